@@ -55,6 +55,35 @@ def line(op, tid, seq):
     return "%s %d %s%s" % (op, tid, G.term(G.TYPES[tid]), "".join(" %d" % x for x in seq))
 
 
+def pair_mutants(enc, rng, w0, npairs):
+    """two-position replacements: the same / different out-of-range high word on two elements, +1/-1 transfers,
+    swaps - near-valid sequences that per-element checks combined by xor/sum/any-of-first would let through"""
+    out = []
+    L = len(enc)
+    if L < 2 or w0:
+        return out
+    pairs = set()
+    for i in range(min(L - 1, 3)):
+        pairs.add((i, i + 1))
+    pairs.add((L - 2, L - 1))
+    for _ in range(npairs):
+        i, j = sorted(rng.sample(range(L), 2))
+        pairs.add((i, j))
+    for (i, j) in sorted(pairs):
+        a, b = enc[i], enc[j]
+        for (da, db) in ((2**32, 2**32), (3 * 2**32, 3 * 2**32), (2**32, 2**33), (2**63, 2**63), (1, -1), (-1, 1)):
+            x, y = a + da, b + db
+            if 0 <= x < P and 0 <= y < P:
+                m = list(enc)
+                m[i], m[j] = x, y
+                out.append(m)
+        if a != b:
+            m = list(enc)
+            m[i], m[j] = b, a
+            out.append(m)
+    return out
+
+
 def cases(tier, rng):
     out = []
     big = tier == "thorough"
@@ -81,6 +110,8 @@ def cases(tier, rng):
                 for c in sorted(cands):
                     if 0 <= c < P and c != x:
                         out.append(("near-valid-replace", line("decm", tid, enc[:i] + [c] + enc[i + 1:])))
+            for m in pair_mutants(enc, rng, w0, 6 if big else 2):
+                out.append(("near-valid-pair", line("decm", tid, m)))
             for k in sorted(set([0, 1, L // 2, L - 2, L - 1])):
                 if 0 <= k < L:
                     out.append(("truncated", line("decx", tid, enc[:k])))
